@@ -143,7 +143,10 @@ Proof.
     + destruct (s_insert_slots FMap k v _ _ Ssel Hsel) as (H1 & H2).
       destruct (s_insert FMap k v (s_sel sp) (s_next sp)) as [[l' n'] it]. cbn [fst snd] in *. apply sslot_set; auto.
     + destruct (valid_pos k ch (s_sel sp)); cbn [fst]; auto. apply sslot_set; auto. apply insert_at_slots. exact Hsel.
-  - destruct (find_list k (s_sel sp)); cbn [fst]; auto. apply sslot_set; auto. apply remove_nth_slots. exact Hsel.
+  - destruct f.
+    + destruct (find_list k (s_sel sp)); cbn [fst]; auto. apply sslot_set; auto. apply remove_nth_slots. exact Hsel.
+    + destruct (has_key k (s_sel sp)); cbn [fst]; auto. destruct (key_at k ch (s_sel sp)); cbn [fst]; auto.
+      apply sslot_set; auto. apply remove_nth_slots. exact Hsel.
   - destruct (pos <? length (s_sel sp))%nat; cbn [fst]; auto. apply sslot_set; auto. apply remove_nth_slots. exact Hsel.
   - destruct (s_sel sp) as [|x t] eqn:E; cbn [fst]; auto. apply sslot_set; auto.
     apply (remove_nth_slots O (x :: t)). exact Hsel.
